@@ -1,5 +1,5 @@
 use crate::{
-  byte_code::{ByteCodeEncoder, EncodedChunk, SymbolicByteCode},
+  byte_code::{ByteCodeEncoder, EncodedChunk, Label, SymbolicByteCode},
   cache::CacheIdEmitter,
   chunk_builder::ChunkBuilder,
   source::VmFileId,
@@ -340,12 +340,49 @@ fn label_count(instructions: &[SymbolicByteCode]) -> usize {
 }
 
 fn apply_stack_effects(fun_builder: &mut FunBuilder, instructions: &mut [SymbolicByteCode]) {
+  // The stack depth at each label as seen by the jumps and handlers that target it.
+  // Control flow may reach a label with a different depth than the preceding instruction
+  // left behind (the other arm of a ternary, the code after a break, continue or return),
+  // so a label resets the simulation to the depth recorded by the transfers that reach it
+  let mut label_slots: Vec<Option<i32>> = vec![];
+  let mut record = |label_slots: &mut Vec<Option<i32>>, label: &Label, slots: i32| {
+    let index = label.val() as usize;
+    if index >= label_slots.len() {
+      label_slots.resize(index + 1, None);
+    }
+    label_slots[index].get_or_insert(slots);
+  };
+
   let mut slots: i32 = 1;
 
   for instruction in instructions {
-    if let SymbolicByteCode::PushHandler((_, label)) = instruction {
-      // TODO handle to many slots
-      *instruction = SymbolicByteCode::PushHandler((slots as u16, *label))
+    match instruction {
+      SymbolicByteCode::Label(label) => {
+        let index = label.val() as usize;
+        match label_slots.get(index).copied().flatten() {
+          Some(label_slots) => slots = label_slots,
+          None => record(&mut label_slots, label, slots),
+        }
+      },
+      SymbolicByteCode::PushHandler((_, label)) => {
+        // an unwind resets the stack to the depth the handler was pushed at
+        record(&mut label_slots, label, slots);
+
+        // TODO handle to many slots
+        *instruction = SymbolicByteCode::PushHandler((slots as u16, *label))
+      },
+      // the operand is still on the stack when these jump
+      SymbolicByteCode::And(label) | SymbolicByteCode::Or(label) => {
+        record(&mut label_slots, label, slots)
+      },
+      // the operand is popped whether or not these jump
+      SymbolicByteCode::JumpIfFalse(label) | SymbolicByteCode::CheckHandler(label) => {
+        record(&mut label_slots, label, slots - 1)
+      },
+      SymbolicByteCode::Jump(label) | SymbolicByteCode::Loop(label) => {
+        record(&mut label_slots, label, slots)
+      },
+      _ => (),
     }
 
     slots += instruction.stack_effect();
